@@ -106,28 +106,32 @@ def nonEmpty (o : Option Str) : Option Str :=
     value are skipped. -/
 def customHeaders : HeaderOpt → List (Str × Str)
   | .absent => []
-  | .list l => l.map (fun line => (parseHeaderLine line).getD (line, []))
+  | .list l => l.map (fun line => (breakAt ':' line).getD (line, []))
   | .dict d => d.filterMap (fun kv => match kv.2 with | some v => some (kv.1, v) | none => none)
 
 /-- `rand` = the 16 fresh random bytes of this request; `jar` = the cookie the jar holds for the
-    host ("" = none). -/
-def expected (u : UrlParts) (o : Opts) (rand : Bytes) (jar : Str) : Req :=
+    host ("" = none).  Names and values as the options give them. -/
+def expectedRaw (u : UrlParts) (o : Opts) (rand : Bytes) (jar : Str) : List (Str × Str) :=
   let cookies := [jar, o.cookie.getD []].filter (fun s => !s.isEmpty)
-  let raw : List (Str × Str) :=
-    [("Upgrade".toList, "websocket".toList),
-     ("Host".toList, (nonEmpty o.host).getD (hostPort u))]
-    ++ (if o.suppressOrigin then []
-        else [("Origin".toList, match o.origin with
-                | some og => og
-                | none => (if u.secure then "https://" else "http://").toList ++ hostPort u)])
-    ++ [("Sec-WebSocket-Key".toList, Base64.encode rand),
-        ("Sec-WebSocket-Version".toList, "13".toList),
-        ("Connection".toList, (nonEmpty o.connection).getD "Upgrade".toList)]
-    ++ (if o.subprotocols.isEmpty then []
-        else [("Sec-WebSocket-Protocol".toList, List.intercalate [','] o.subprotocols)])
-    ++ customHeaders o.header
-    ++ (if cookies.isEmpty then [] else [("Cookie".toList, List.intercalate "; ".toList cookies)])
-  { target := u.resource, headers := raw.map (fun nv => (nv.1, trimOWS nv.2)) }
+  [("Upgrade".toList, "websocket".toList),
+   ("Host".toList, (nonEmpty o.host).getD (hostPort u))]
+  ++ (if o.suppressOrigin then []
+      else [("Origin".toList, match o.origin with
+              | some og => og
+              | none => (if u.secure then "https://" else "http://").toList ++ hostPort u)])
+  ++ [("Sec-WebSocket-Key".toList, Base64.encode rand),
+      ("Sec-WebSocket-Version".toList, "13".toList),
+      ("Connection".toList, (nonEmpty o.connection).getD "Upgrade".toList)]
+  ++ (if o.subprotocols.isEmpty then []
+      else [("Sec-WebSocket-Protocol".toList, join [','] o.subprotocols)])
+  ++ customHeaders o.header
+  ++ (if cookies.isEmpty then [] else [("Cookie".toList, join "; ".toList cookies)])
+
+/-- field values are compared without the surrounding optional white space -/
+def norm (nv : Str × Str) : Str × Str := (nv.1, trimOWS nv.2)
+
+def expected (u : UrlParts) (o : Opts) (rand : Bytes) (jar : Str) : Req :=
+  { target := u.resource, headers := (expectedRaw u o rand jar).map norm }
 
 /-- C10 key clause: the key is the base64 of `n` bytes. -/
 def keyOk (key : Str) (rand : Bytes) (n : Nat) : Bool :=
